@@ -1,8 +1,8 @@
 SPECIFICATION Spec
 CONSTANTS
-  Workers = {w1, w2}
+  Workers = {w1}
   Producers = {p1, p2}
-  ApiCallers = {a1}
+  ApiCallers = {}
   Groups = {g1, g2}
   Par = par
   Nil = nil
@@ -10,12 +10,12 @@ CONSTANTS
   p2 = p2
   g1 = g1
   g2 = g2
-  MaxCycles = 1
+  MaxCycles = 2
   RecheckUnderLock = TRUE
   GuardedConn = TRUE
   PerCycleWG = TRUE
-  SubscribeMayFail = FALSE
-  Script <- MCScript
+  SubscribeMayFail = TRUE
+  Script <- MCScriptD
 VIEW view
 INVARIANTS MutualExclusion FifoPrefix AtMostOnce ExactlyOnce NoPanic AfterShutdown NoLateStart Accounted
 PROPERTY AppendOnly
